@@ -187,7 +187,11 @@ def check_psf(case, ctx):
         require(v >= -1e-15 * abs(flux), 'negative_value', f'{v}')
         require(v <= peak * (1 + 1e-12), 'not_peaked_at_centre',
                 f'value {v} at offset ({dx},{dy}) exceeds the central value {peak}')
-        require(close(v, f(x0 - dx, y0 - dy), 1e-10, 1e-300), 'not_point_symmetric')
+        # (absolute term: (x0 + dx) - x0 != dx in floating point, which
+        # matters next to the zeros of the Airy pattern)
+        v2 = f(x0 - dx, y0 - dy)
+        require(close(v, v2, 1e-10, 1e-11 * peak), 'not_point_symmetric',
+                f'{v} at +({dx},{dy}) vs {v2} at the mirrored offset')
     # encircled flux by radial quadrature against the closed form
     if kind == 'gauss':
         sx, sy = p['fwhm'] / S2F, p['fwhm'] * p['ratio'] / S2F
